@@ -65,7 +65,8 @@ Record Inv (s : lstate) (g : ghost) : Prop := mkInv {
   i_top : top = true -> forall a, mainp s <> MBusy a;
   i_closed : closed s = get (dn s) (root G);
   i_sem : forall a t, get (th s) a = Some t -> hph t = HEnded -> hsem t = true;
-  i_seedleaf : forall b, stg g b = SSeed -> b <> root G }.
+  i_seedleaf : forall b, stg g b = SSeed -> b <> root G;
+  i_seeding : top = false -> seedl s <> [] -> mainp s = MIdle \/ mainp s = MDone }.
 
 Lemma countb_filter : forall (f : nat -> bool) b l, NoDup l -> countb b (filter f l) = if memb b l && f b then 1 else 0.
 Proof.
@@ -109,6 +110,7 @@ Proof.
   - (* sem *) discriminate.
   - (* seedleaf *) destruct (memb b (nodes G) && nilb (deps G b)) eqn:E; try discriminate.
     apply andb_true_iff in E. destruct E as [E _]. apply memb_In in E. intro. subst. apply (wf_root G WF). assumption.
+  - (* seeding *) left. reflexivity.
 Qed.
 
 (* A thread exists only for actions of the graph. *)
@@ -210,6 +212,8 @@ Proof.
   - cases b0 b; gsimp.
     + apply (i_seedleaf _ _ I). assumption.
     + apply (i_seedleaf _ _ I). assumption.
+  - apply orb_false_iff in Heqb0. destruct Heqb0 as [_ Hx]. apply negb_false_iff in Hx. rewrite H in Hx. rewrite orb_false_r in Hx.
+    unfold main_idle in Hx. destruct (mainp s); try discriminate. left. reflexivity.
 Qed.
 
 Ltac same I :=
@@ -218,7 +222,8 @@ Ltac same I :=
         | (apply (i_ts _ _ I); assumption) | (apply (i_root _ _ I); assumption) | (apply (i_busy _ _ I); assumption)
         | (apply (i_top _ _ I); assumption) | (eapply (i_sem _ _ I); eassumption) | apply (i_seed _ _ I) | apply (i_queue _ _ I)
         | apply (i_main _ _ I) | apply (i_th _ _ I) | apply (i_slot _ _ I) | (apply (i_wait _ _ I); assumption)
-        | (apply (i_out _ _ I); assumption) | (eapply (i_deps _ _ I); eassumption) | (eapply (i_seedleaf _ _ I); eassumption) ].
+        | (apply (i_out _ _ I); assumption) | (eapply (i_deps _ _ I); eassumption) | (eapply (i_seedleaf _ _ I); eassumption)
+        | (apply (i_seeding _ _ I); assumption) ].
 
 (* H : X <-> old = C with old <> C syntactically; goal X <-> new = C with new <> C *)
 Ltac iff_false H := let Hx := fresh in split; intro Hx; [ apply H in Hx; discriminate Hx | discriminate Hx ].
@@ -234,7 +239,7 @@ Proof.
   assert (Hc := remove_msg_count _ _ _ Heqo).
   assert (Sb : stg g b = SQueue).
   { pose proof (i_queue s g I b). pose proof (Hc b). rewrite Nat.eqb_refl in H0. destruct (stg g b); auto; lia. }
-  apply andb_true_iff in Heqb0. destruct Heqb0 as [Hr _].
+  apply andb_true_iff in Heqb0. destruct Heqb0 as [Hr Hs].
   constructor; psimpl; intros; try (same I).
   - cases b0 b; gsimp; [| same I]. rewrite (i_seed _ _ I b), Sb. reflexivity.
   - cases b0 b; gsimp.
@@ -251,6 +256,7 @@ Proof.
   - discriminate.
   - discriminate.
   - cases b0 b; gsimp; [| same I]. discriminate.
+  - exfalso. rewrite H in Hs. simpl in Hs. apply nilb_nil in Hs. congruence.
 Qed.
 
 Lemma Inv_spawn : forall s g b sem inl mp (e : label),
@@ -292,6 +298,7 @@ Proof.
   - destruct Hmp as [-> | [-> Ht]]; congruence.
   - cases a b; gsimp; [| same I]. inversion H; subst. discriminate.
   - cases b0 b; gsimp; [| same I]. discriminate.
+  - exfalso. destruct (i_seeding _ _ I H H0); congruence.
 Qed.
 
 Ltac bsplit :=
@@ -470,6 +477,7 @@ Proof.
   - split; intros; try discriminate. apply (i_main _ _ I) in H2. exfalso. eapply main_ready_not_have; eauto.
   - discriminate.
   - discriminate.
+  - right. reflexivity.
 Qed.
 
 Lemma Inv_EEnq : forall s g free a b s' f', Inv s g -> step s free (EEnq a b) = Some (s', f') -> Inv s' (ghost_step s g (EEnq a b)).
@@ -1083,5 +1091,120 @@ Proof.
 Qed.
 
 End Exec.
+
+(* ------------------------------------------------------------------------------------------------ *)
+(* Progress                                                                                          *)
+
+(* a handler that is neither finished nor blocked in a send *)
+Definition movable (s : lstate) (a : nat) : bool :=
+  match get (th s) a with
+  | None => false
+  | Some t => match hph t with HTrig [] => false | HTrig (_ :: _) => negb (blocked top s a) | _ => true end
+  end.
+
+(* Every movable handler has an enabled step, whatever the number of free tokens.  A running handler can
+   end with any result (None if the action was skipped). *)
+Lemma movable_step : forall s g a, Inv s g -> movable s a = true ->
+  (exists t sk, get (th s) a = Some t /\ hph t = HRun sk /\
+      forall o free, (sk = true -> o = None) -> exists s', step s free (EEnd a o) = Some (s', free))
+  \/ (exists e, (forall free, exists s' f', step s free e = Some (s', f') /\ (f' = free \/ (f' = S free /\ e = ERel a)))
+         /\ match e with EStart x | ERel x | EDec x _ | EEnq x _ => x = a | EClose => a = root G | _ => False end).
+Proof.
+  intros s g a I M. unfold movable in M. destruct (get (th s) a) as [t |] eqn:Ht; try discriminate.
+  destruct (hph t) as [| sk | | ts | b ts] eqn:Hp.
+  - (* HFresh *) right. destruct (Nat.eq_dec a (root G)) as [-> | Hr].
+    + exists EClose. split; auto. intros. unfold C06.step. rewrite Ht, Hp. do 2 eexists; split; [reflexivity | auto].
+    + exists (EStart a). split; auto. intros. unfold C06.step. rewrite (proj2 (Nat.eqb_neq _ _) Hr), Ht, Hp. do 2 eexists; split; [reflexivity | auto].
+  - (* HRun *) left. exists t, sk. split; auto. split; auto. intros o free Ho. unfold C06.step. rewrite Ht, Hp.
+    destruct sk; simpl. rewrite Ho by reflexivity. simpl. eauto. eauto.
+  - (* HEnded *) right. exists (ERel a). split; auto. intros. unfold C06.step. rewrite Ht, Hp. rewrite (i_sem _ _ I _ _ Ht Hp). do 2 eexists; split; [reflexivity | auto].
+  - (* HTrig *) destruct ts as [| b ts]; try discriminate. right. exists (EDec a b). split; auto. intros. unfold C06.step.
+    rewrite Ht, Hp. rewrite Nat.eqb_refl, M. simpl. do 2 eexists; split; [reflexivity | auto].
+  - (* HSend *) right. exists (EEnq a b). split; auto. intros. unfold C06.step. rewrite Ht, Hp. rewrite Nat.eqb_refl. do 2 eexists; split; [reflexivity | auto].
+Qed.
+
+(* if no handler is active and nothing is queued or held, every action has a handler *)
+Lemma quiescent_all_threads : forall s g, Inv s g -> seedl s = [] -> queue s = [] -> (forall b, mainp s <> MHave b) ->
+  (forall a, movable s a = false) -> forall a, In a (alln G) -> exists t, get (th s) a = Some t /\ hph t = HTrig [].
+Proof.
+  intros s g I Hs Hq Hm Hmv.
+  assert (Hfin : forall a t, get (th s) a = Some t -> hph t = HTrig []).
+  { intros a t Ht. specialize (Hmv a). unfold movable in Hmv. rewrite Ht in Hmv.
+    destruct (hph t) as [| | | [| b ts] |]; try discriminate; auto.
+    apply negb_false_iff in Hmv. unfold blocked in Hmv. rewrite Hq in Hmv. simpl in Hmv. rewrite andb_false_r in Hmv. discriminate. }
+  assert (forall n a, In a (alln G) -> rank G a < n -> stg g a = SThread).
+  { induction n; intros a Ha Hn. lia.
+    destruct (stg g a) eqn:E; auto; exfalso.
+    - (* waiting: some dependency still owes a decrement *)
+      pose proof (proj1 (i_wait _ _ I a Ha) E) as Hp. rewrite (i_pend _ _ I a Ha) in Hp.
+      destruct (owe g a) as [| d l] eqn:Eo; simpl in Hp; try lia.
+      assert (Hd : In d (deps G a)). { apply (i_owed _ _ I d a). rewrite Eo. left. reflexivity. }
+      assert (Hda : In d (alln G)) by (right; eapply deps_in_nodes; eauto).
+      pose proof (i_owe _ _ I d a Hda Ha) as Hw. rewrite Eo in Hw. simpl in Hw. rewrite Nat.eqb_refl in Hw.
+      assert (Sd : stg g d = SThread). { apply IHn; auto. pose proof (rank_deps G WF a Ha d Hd). lia. }
+      apply (i_th _ _ I) in Sd. destruct (get (th s) d) as [t |] eqn:Et; try congruence.
+      unfold rem, remT in Hw. rewrite Et, (Hfin _ _ Et) in Hw. simpl in Hw. lia.
+    - pose proof (i_seed _ _ I a) as Hx. rewrite E, Hs in Hx. simpl in Hx. lia.
+    - apply (i_slot _ _ I) in E. destruct E as [t [ts [E1 E2]]]. rewrite (Hfin _ _ E1) in E2. discriminate.
+    - pose proof (i_queue _ _ I a) as Hx. rewrite E, Hq in Hx. simpl in Hx. lia.
+    - apply (i_main _ _ I) in E. eapply Hm; eauto. }
+  intros a Ha. assert (Sa : stg g a = SThread). { apply (H (S (rank G a))); auto. }
+  apply (i_th _ _ I) in Sa. destruct (get (th s) a) as [t |] eqn:Et; try congruence. exists t. split; auto. eapply Hfin; eauto.
+Qed.
+
+Definition main_event (e : label) : Prop := match e with ESeed _ | EDeq _ | EExit => True | _ => False end.
+
+(* no_deadlock for one level: a state that is not final has a movable handler, or the loop's thread holds an
+   item (and will acquire a token or, below the package level, run it inline), or the loop's thread / the
+   seeding can step. *)
+Theorem level_progress : forall s g, Inv s g -> final s = false ->
+  (exists a, In a (alln G) /\ movable s a = true)
+  \/ (exists b, mainp s = MHave b)
+  \/ (exists e, main_event e /\ forall free, exists s', step s free e = Some (s', free)).
+Proof.
+  intros s g I Hf.
+  destruct (existsb (movable s) (alln G)) eqn:Ex.
+  { left. apply existsb_exists in Ex. destruct Ex as [a [H1 H2]]. eauto. }
+  assert (Hmv : forall a, movable s a = false).
+  { intros a. destruct (in_dec Nat.eq_dec a (alln G)).
+    - destruct (movable s a) eqn:E; auto. assert (existsb (movable s) (alln G) = true) by (apply existsb_exists; eauto). congruence.
+    - unfold movable. destruct (get (th s) a) eqn:E; auto. exfalso. apply n. eapply th_alln; eauto. }
+  destruct (mainp s) as [| b | a |] eqn:Em.
+  2: { right. left. eauto. }
+  3: { unfold final in Hf. rewrite Em in Hf. discriminate. }
+  - (* idle *) right. right. assert (Hr : main_ready s = true) by (unfold main_ready; rewrite Em; reflexivity).
+    destruct (queue s) as [| m q] eqn:Eq.
+    + destruct (seedl s) as [| b l] eqn:Es.
+      * (* nothing left: the root has been handled *)
+        destruct (quiescent_all_threads s g I Es Eq ltac:(intros; congruence) Hmv (root G) (root_alln G)) as [t [Ht Hp]].
+        exists EExit. split. exact Logic.I. intros. unfold C06.step. rewrite Hr, Eq.
+        assert (closed s = true). { rewrite (i_closed _ _ I), (i_dn _ _ I _ _ Ht), Hp. reflexivity. }
+        rewrite H. simpl. eauto.
+      * exists (ESeed b). split. exact Logic.I. intros. unfold C06.step. rewrite Es. simpl. rewrite Nat.eqb_refl.
+        unfold seeder_blocked, main_idle. rewrite Eq, Em. simpl. rewrite andb_false_r. simpl. eauto.
+    + destruct top eqn:Et.
+      * exists (EDeq (mitem m)). split. exact Logic.I. intros. unfold C06.step. rewrite Hr. simpl. rewrite Eq. simpl. rewrite Nat.eqb_refl. eauto.
+      * destruct (seedl s) as [| b l] eqn:Es.
+        -- exists (EDeq (mitem m)). split. exact Logic.I. intros. unfold C06.step. rewrite Hr, Es. simpl. rewrite Eq. simpl. rewrite Nat.eqb_refl. eauto.
+        -- exists (ESeed b). split. exact Logic.I. intros. unfold C06.step. rewrite Es. simpl. rewrite Nat.eqb_refl.
+           unfold seeder_blocked, main_idle. rewrite Em. simpl. eauto.
+  - (* the loop's thread has run a handler inline: that handler has finished *)
+    right. right.
+    assert (Ht : top = false). { destruct top eqn:Et; auto. exfalso. eapply (i_top _ _ I); eauto. }
+    destruct (i_busy _ _ I a Em) as [t Hta].
+    assert (Hp : hph t = HTrig []).
+    { specialize (Hmv a). unfold movable in Hmv. rewrite Hta in Hmv. destruct (hph t) as [| | | [| b ts] |]; try discriminate; auto.
+      unfold blocked in Hmv. rewrite Ht in Hmv. discriminate. }
+    assert (Hr : main_ready s = true). { unfold main_ready. rewrite Em, Hta. simpl. rewrite Hp. reflexivity. }
+    assert (Hsd : seedl s = []).
+    { destruct (seedl s) eqn:Es; auto. exfalso. destruct (i_seeding _ _ I Ht); rewrite ?Es; congruence. }
+    destruct (queue s) as [| m q] eqn:Eq.
+    + destruct (quiescent_all_threads s g I Hsd Eq ltac:(intros; congruence) Hmv (root G) (root_alln G)) as [t0 [Ht0 Hp0]].
+      exists EExit. split. exact Logic.I. intros. unfold C06.step. rewrite Hr, Eq.
+      assert (closed s = true). { rewrite (i_closed _ _ I), (i_dn _ _ I _ _ Ht0), Hp0. reflexivity. }
+      rewrite H. simpl. eauto.
+    + exists (EDeq (mitem m)). split. exact Logic.I. intros. unfold C06.step. rewrite Hr, Hsd. rewrite orb_true_r. simpl.
+      rewrite Eq. simpl. rewrite Nat.eqb_refl. eauto.
+Qed.
 
 End LevelProofs.
